@@ -267,6 +267,8 @@ func genBlameTable(c *Ctx, verifDir string) error {
 }
 
 func runC04(c *Ctx, r *Run) {
+	r.Rule("OB-B5", "the proofs the abort rounds rest their blame on (Nth-root openings, discrete-log proofs) keep every recorded reject guard: an opening that can be forged moves the blame to an honest party")
+	checkZKInventory(c, r, "OB-B5", zkPackages(c), func(rel string) bool { return strings.HasSuffix(rel, "/nth") || strings.HasSuffix(rel, "/log") })
 	r.Rule("OB-B1", "sender attribution in MultiHandler: abort names exactly the sender of the message whose processing failed; nobody for hash mismatch / recovered panic; the Abort round's culprits for protocol blame")
 	r.Rule("OB-B2", "blame-guard inventory: every culprit append is still controlled by its recorded check on the recorded data and names the loop's own party; SelfID() never flows into a culprit list")
 	r.Rule("PP-1", "per-party table entries written in a loop over parties do not depend on loop-carried accumulators")
